@@ -69,14 +69,17 @@ def isVerChar (c : Char) : Bool := isDigit c || c = '.'
 
 def stripDots (p : Str) : Str := (p.reverse.dropWhile (· = '.')).reverse
 
-/-- `([\d\.]+\d+)` at the start of `s` when whatever follows it in the pattern accepts any
-    remainder made of `[\d\.]` characters (true for `(.*)`, `(.*)$` and end of pattern):
-    the greedy `[\d\.]+` backs off until `\d+` finds a digit, so the group is the maximal run
-    of version characters with its trailing dots removed, and it needs two characters.
-    Returns the group and the text after it. -/
-def verPrefix (s : Str) : Option (Str × Str) :=
+/-- `([\d\.]{n-1,}\d+)` at the start of `s` — `n = 2` is `([\d\.]+\d+)`, `n = 1` is
+    `([\d\.]*\d+)` — when whatever follows it in the pattern accepts any remainder made of
+    `[\d\.]` characters (true for `(.*)`, `(.*)$` and end of pattern): the greedy class backs off
+    until `\d+` finds a digit, so the group is the maximal run of version characters with its
+    trailing dots removed, and it needs `n` characters.  Returns the group and the text after it. -/
+def verPrefixN (n : Nat) (s : Str) : Option (Str × Str) :=
   let g := stripDots (s.takeWhile isVerChar)
-  if 2 ≤ g.length then some (g, s.drop g.length) else none
+  if n ≤ g.length then some (g, s.drop g.length) else none
+
+/-- `([\d\.]+\d+)`: the patterns of `Software.parse` (two characters at least) -/
+def verPrefix (s : Str) : Option (Str × Str) := verPrefixN 2 s
 
 /-- `s` minus the prefix `p` when `s.startswith(p)`. -/
 def stripPrefix? : Str → Str → Option Str
@@ -116,11 +119,12 @@ def compareVersionNumbers (a b : Str) : Int :=
 
 /-! ### Software.compare_version -/
 
-/-- `mx = re.match(r'^([\d\.]+\d+)(.*)$', other)`; `(group(1), group(2).strip())` or
+/-- `mx = re.match(r'^([\d\.]*\d+)(.*)$', other)` (one version character is enough, so that
+    `9p1` is split too); `(group(1), group(2).strip())` or
     `(other, '')`.  Whether `(.*)$` accepts the remainder does not depend on where group 1
     ends (version characters are not newlines), so no shorter group 1 is ever chosen. -/
 def splitOther (other : Str) : Str × Str :=
-  match verPrefix other with
+  match verPrefixN 1 other with
   | some (g, rest) =>
     match dotTail rest with
     | some t => (g, pyStrip t)
